@@ -103,7 +103,7 @@ fn mk_labels(g: &[(String, String)]) -> Vec<Label> {
 
 /// Reference length of a message holding exactly `values` (independent re-encoding; float text via ryu,
 /// the same public formatter any DogStatsD client would use).
-fn reference_len(name: &str, prefix: &Option<String>, value_strs: &[String], rate: Option<f64>, tags: &[(String, String)], ts: Option<u64>) -> usize {
+pub fn reference_len(name: &str, prefix: &Option<String>, value_strs: &[String], rate: Option<f64>, tags: &[(String, String)], ts: Option<u64>) -> usize {
     let mut n = prefix.as_ref().map(|p| p.len() + 1).unwrap_or(0) + name.len();
     for v in value_strs {
         n += 1 + v.len();
